@@ -131,12 +131,13 @@ def correspondence(ctx):
         as_param = rng.random() < 0.4
         link = rng.random() < 0.5 and not as_param
         acases.append({"size": rng.choice([[33, 29], [17, 21], [25, 25]]), "align": rng.random() < 0.5,
-                       "h": [dy(rng, -0.5, 0.5, 4), dy(rng, -0.5, 0.5, 4)], "steps": rng.choice([0, 1, 2, 3, 5, 6]),
+                       "h": [dy(rng, -0.4, 0.4, 4), dy(rng, -0.4, 0.4, 4)], "steps": rng.choice([1, 2, 3, 4, 5, 6]),
                        "as_parameter": as_param, "link": link, "upd": rng.random() < 0.5, "pre_update": rng.random() < 0.5,
                        "inv_property": (not as_param) and rng.random() < 0.15,
-                       "x": [[dy(rng, -0.5, 0.5, 4), dy(rng, -0.5, 0.5, 4)] for _ in range(3)]})
+                       # points well inside: the extrapolated border of the velocity field reaches inwards by the displacement
+                       "x": [[dy(rng, -0.3, 0.3, 4), dy(rng, -0.3, 0.3, 4)] for _ in range(3)]})
     ares = vlib.run_impl("c07_impl", {"fn": "affine_velocity", "cases": acases})
-    alines = ["From Coq Require Import ZArith QArith List String.",
+    alines = ["From Coq Require Import ZArith QArith Qcanon List String.",
               "From DV Require Import Base.Field Base.QcInst Model.VelocityAffine.",
               "Import ListNotations.", "Definition tol : Q := 1 # 10000000.",
               "Definition pt (k : nat) (h x y z : Qc) : bool := qclose tol (Qcmult x (exp_k (K:=QcF) k (q 1 1) h)) y "
@@ -254,8 +255,13 @@ MANIFEST_ENTRY = {
             "all orders), and inverse-biased operation histories against the state machine; search: inverse(t(x)) = x = t(inverse(x)) on the "
             "implementation for every class x parameter kind x link x update_buffers x .inv, before and after parameter changes, named "
             "composites and hand-built composites of 1..5 members.",
-    "note": "Partial: velocity-field models (SVF, SVFFD) only numerically on smooth fields (error < 0.1 sample, ratio under amplitude halving "
-            "< 0.62, i.e. super-linear); the exact second-order statement for affine generators is not proved here; the shared-parameter "
-            "theorem covers link=False (link=True on fixed tensors and callables is covered by the correspondence and the search). Trusted: "
-            "Coq kernel, vm_compute, tools/symtorch.py (validated each run), the object semantics of the state machine (C09 correspondence).",
+    "note": "Round 2: added C07_inverse_stays_inverse_link_and_callable (link in {False, True} for fixed tensors, link=False for callables), "
+            "C07_inverse_update_buffers_gives_inverse_field (rests on the statement order of SVF/SVFFD.inverse read from the source), "
+            "C07_affine_generator_second_order (every k: exp_k(-h) exp_k(h) = (1 - h^2/4^k)^(2^k), by induction over k; the multiplier exp_k is "
+            "compared with StationaryVelocityFieldTransform on diagonal affine generators on every run, agreement ~1e-9). Still partial: "
+            "velocity-field models on general smooth fields only numerically (error < 0.1 sample at amplitude 0.16, ratio under amplitude "
+            "halving < 0.62) and direct access to inverses through forward/tensor/disp/flow by the search; non-diagonal (non-commuting) affine "
+            "generators and SVFFD are not covered by the closed-form theorem; link=True with callable parameters reads the buffered p by design "
+            "(correspondence only); Parameter + link=True is refuted (known finding). Trusted: Coq kernel, vm_compute, tools/symtorch.py "
+            "(validated each run), the object semantics of the state machine (C09 correspondence).",
 }
